@@ -416,4 +416,108 @@ example : (exchange (toyCfgOf (guardedSplit (fun _ => false) 2 (fun i => (5 + i,
     (by decide) rfl ⟨(3, 5), by decide +kernel⟩ (fun hs => toy_hyps_of _ hs)
   exact h.1
 
+/-! ## the client's own draws as an input -/
+
+/-- **Every draw.** `hs_agree` with the client's draws as explicit variables. `ExchangeHyps` asks of the nonce 16
+bytes, of new_nonce 32 bytes, of the padding source at least 15 bytes, and of the DH exponent `b` NOTHING about
+its form: any byte string `crypto/rand` may deliver - of any length, with any number of leading zero bytes, as a
+number tiny (1, 2, 1000), huge (2^2048 − 1), at or above `dh_prime` or a multiple of the group order plus a little.
+The only hypothesis that depends on the VALUE of `b` is `ExchangeHyps.gb`, `1 < g^b mod dh_prime < dh_prime − 1`: the
+g_b every conformant server has to accept (`any_draw_condition` states it with `^`; `zero_draw_excluded`: it fails
+for `b = 0`, where g_b = 1 is refused by every conformant server and this client does not draw again). Then the
+exchange completes, both sides hold `g^(a·b) mod dh_prime` as exactly 256 bytes, the same salt, the client is in
+encrypted mode and has stored ONE session with that key and salt. The client machine draws each value once
+(`Draws`), as `makeAuthKey` / `math.MakeGAB` do: there is no second draw whose value could matter. -/
+theorem hs_agree_any_draw (R : Registry) (P : Prims) (key : PubKey) (nonce newNonce b rnd : Bytes) (s : Secrets)
+    (h : ExchangeHyps ⟨R, P, key, ⟨nonce, newNonce, b, rnd⟩⟩ s) :
+    let x := exchange ⟨R, P, key, ⟨nonce, newNonce, b, rnd⟩⟩ s
+    let K := beBytes (s.g ^ (s.a * fromBE b) % s.dhPrime) 256
+    x.client.result = some (.ok ()) ∧ x.client.authKey = K ∧ K.length = 256 ∧
+      x.server.map (·.authKey) = some K ∧ x.server.map (·.salt) = some x.client.salt ∧
+      x.client.encrypted = true ∧ x.client.serviceMode = false ∧
+      ∃ req1 req2 req3, x.actions = [.sendPlain req1, .sendPlain req2, .sendPlain req3, .setEncrypted,
+        .saveSession K (((P.H K).drop 12).take 8) x.client.salt] := by
+  obtain ⟨req1, req2, req3, hres, hkey, hlen, hsrv, _, hsalt, _, hsvc, henc, hact⟩ := hs_agree _ s h
+  refine ⟨hres, hkey, hlen, ?_, ?_, henc, hsvc, req1, req2, req3, ?_⟩
+  · simp only [hsrv, Option.map_some]
+  · simp only [hsrv, hsalt, Option.map_some]
+  · simp only [hact, hsalt]
+
+/-- the one condition on the value of the exponent, in terms of `^` (not of the executable `powMod`) -/
+theorem any_draw_condition {c : Cfg} {s : Secrets} (h : ExchangeHyps c s) :
+    1 < s.g ^ fromBE c.d.b % s.dhPrime ∧ s.g ^ fromBE c.d.b % s.dhPrime < s.dhPrime - 1 := by
+  have := h.gb
+  rwa [powMod_spec] at this
+
+/-- … which excludes the draw `b = 0` (any number of zero bytes): g_b = 1 -/
+theorem zero_draw_excluded (c : Cfg) (s : Secrets) (hb : fromBE c.d.b = 0) : ¬ ExchangeHyps c s := by
+  intro h
+  have h1 := (any_draw_condition h).1
+  rw [hb, Nat.pow_zero] at h1
+  have := Nat.mod_le 1 s.dhPrime
+  omega
+
+/-- the toy instance with another exponent: three bytes, two leading zero bytes, the number 25 ≥ dh_prime = 23
+(`2^25 mod 23 = 8`) -/
+def toyCfgBigB : Cfg := { toyCfg with d := ⟨zeros 16, zeros 32, [0, 0, 25], zeros 15⟩ }
+
+theorem toy_hyps_big_b : ExchangeHyps toyCfgBigB toySecrets := by
+  have hreg : HsReg hsDescs := by decide
+  have hb : fromBE toyCfgBigB.d.b = fromBE [0, 0, 25] := rfl
+  refine
+    { reg := hreg, wfr := wfr_of_wfrB _ (show wfrB hsDescs = true by decide), hlen := lenHash_length,
+      cipher := fun _ => revCipher, nonce := by simp [toyCfgBigB], newNonce := by simp [toyCfgBigB],
+      rnd := by simp [toyCfgBigB], keyLo := Nat.le_refl _,
+      keyHi := Nat.pow_lt_pow_right (by decide) (by decide), keyE := (show (1 : Nat) < 2 ^ 63 by decide),
+      rsa := ?_, serverNonce := by decide, p32 := by decide, q32 := by decide, split := rfl, g := by decide,
+      dhPos := by decide,
+      dhFit := Nat.lt_of_lt_of_le (by decide : (23 : Nat) < 2 ^ 5) (Nat.pow_le_pow_right (by decide) (by decide)), time := by decide, pad := by simp [toySecrets],
+      fps := by decide, fpsLen := by decide, gb := by rw [hb]; decide, colAnswer := ?_, colClient := ?_ }
+  · intro m hm
+    simp only [toyCfgBigB, toyCfg, toyCfgOf, toySecrets, Nat.pow_one]
+    exact Nat.mod_eq_of_lt hm
+  · intro answer ha
+    refine lenHash_noLongerCollision _ _ ?_
+    obtain ⟨bs, hbs, hl⟩ := marshal_inner_len hreg (fromBE (zeros 16)) toySecrets.serverNonce toySecrets.g
+      (intBytes toySecrets.minimal toySecrets.dhPrime)
+      (intBytes toySecrets.minimal (powMod toySecrets.g toySecrets.a toySecrets.dhPrime)) toySecrets.time
+      (by decide) (by decide) (by decide) (by decide)
+    have : answer = bs := by
+      have h2 : marshal toyCfgBigB.R (srvAnswerVal toyCfgBigB toySecrets) = .ok bs := hbs
+      rw [ha] at h2; cases h2; rfl
+    subst this
+    have hp : (List.take (tempPadLen (20 + answer.length)) toySecrets.pad).length ≤ 15 := by
+      simp [toySecrets]
+    have h1 : (intBytes toySecrets.minimal toySecrets.dhPrime).length ≤ 256 := by decide
+    have h2 : (intBytes toySecrets.minimal (powMod toySecrets.g toySecrets.a toySecrets.dhPrime)).length ≤ 256 := by decide
+    have : (256 : Nat) ^ 20 = 2 ^ 160 := by rw [show (256 : Nat) = 2 ^ 8 from rfl, ← Nat.pow_mul]
+    omega
+  · intro msg hm
+    refine lenHash_noLongerCollision _ _ ?_
+    obtain ⟨bs, hbs, hl⟩ := marshal_clientInner_len hreg (fromBE (zeros 16)) toySecrets.serverNonce 0
+      (bigBytes (powMod toySecrets.g (fromBE [0, 0, 25]) toySecrets.dhPrime)) (by decide) (by decide) (by decide)
+    have : msg = bs := by
+      have h2 : marshal toyCfgBigB.R (cliInnerVal toyCfgBigB toySecrets) = .ok bs := hbs
+      rw [hm] at h2; cases h2; rfl
+    subst this
+    have hp : (List.take (tempPadLen (20 + msg.length)) toyCfgBigB.d.rnd).length ≤ 15 := by
+      simp [toyCfgBigB]
+    have h1 : (bigBytes (powMod toySecrets.g (fromBE [0, 0, 25]) toySecrets.dhPrime)).length ≤ 256 := by decide
+    have : (256 : Nat) ^ 20 = 2 ^ 160 := by rw [show (256 : Nat) = 2 ^ 8 from rfl, ← Nat.pow_mul]
+    omega
+
+/-- `hs_agree_any_draw` is not vacuous for an exponent at or above the modulus, with leading zero bytes: the
+exchange completes and the key is `2^(3·25) mod 23 = 2^9 mod 23 = 6` as 256 bytes -/
+example : (exchange toyCfgBigB toySecrets).client.result = some (.ok ()) ∧
+    (exchange toyCfgBigB toySecrets).client.authKey = beBytes 6 256 := by
+  have h := hs_agree_any_draw hsDescs toyCfgBigB.P toyCfgBigB.key (zeros 16) (zeros 32) [0, 0, 25] (zeros 15) toySecrets toy_hyps_big_b
+  refine ⟨h.1, ?_⟩
+  rw [show (exchange toyCfgBigB toySecrets).client.authKey = _ from h.2.1]
+  have : toySecrets.g ^ (toySecrets.a * fromBE [0, 0, 25]) % toySecrets.dhPrime = 6 := by decide
+  rw [this]
+
+/-- … and a draw of zero bytes is outside the hypotheses -/
+example : ¬ ExchangeHyps { toyCfg with d := ⟨zeros 16, zeros 32, [0, 0, 0, 0], zeros 15⟩ } toySecrets :=
+  zero_draw_excluded _ _ (by decide)
+
 end Mtv.Handshake
